@@ -246,7 +246,7 @@ def run(ctx):
             else:
                 ctx.violation("checked-result", key, "signature verification result is not enforced: " + info, fn.loc(bb))
                 consumers.append((fn.path, bb))
-    ctx.floor("checked-result", nsites, 3, "verification predicate call sites")
+    ctx.floor("checked-result", len(consumers), 2, "enforced verification sites (the DELE and the SREP signature; wrappers that only hand the result on are not counted)")
 
     # ------------------------------------------------------------------ (2) operands of the two verifications
     ctors = W.ctor_fields(HANDLER)
@@ -398,7 +398,47 @@ def run(ctx):
                         srcs.add("nonconst")
                 else:
                     srcs.add("nonconst")
-    ctx.check("verified-flag", "assignment/constant-true-sites", bool(true_blocks) and not srcs,
+    # second form: `let verified = self.pub_key.is_some(); if verified { validate_dele(); validate_srep(); }` - the flag IS the key test, and the
+    # validations run on every path on which it is true
+    vexp = W.expand(vterm) if vterm is not None else None
+    pred_form = (not true_blocks and is_call(vexp) and callee_name(vexp[1]) == "is_some" and vexp[2] and
+                 W.expand(vexp[2][0]) == ("field", ("param", pfn.path, 1), "pub_key") and pfn.locals[1]["ty"].startswith("&") and not pfn.locals[1]["ty"].startswith("&mut"))
+    if pred_form:
+        false_edges = set()
+        for bl in pfn.blocks:
+            tt = bl.term
+            if tt["k"] == "switch" and bl.idx in pfn.reachable() and W.expand(pev.op(tt["op"], (bl.idx, "term"))) == vexp:
+                for cval, tgt in tt["cases"]:
+                    if cval == 0:
+                        false_edges.add((bl.idx, tgt))
+        dom_calls = {}
+        for bb, t in pfn.calls():
+            for tg in P.call_targets(t):
+                for n in performs_sig.get(tg, ()):
+                    # every path entry -> construction that does not take a `verified == false` edge passes this call
+                    seen_b, work_b, through = {0}, [0], True
+                    while work_b:
+                        x = work_b.pop()
+                        if x == pbb:
+                            through = False
+                            break
+                        if x == bb:
+                            continue
+                        for y in pfn.succ(x):
+                            if (x, y) not in false_edges and y not in seen_b:
+                                seen_b.add(y)
+                                work_b.append(y)
+                    if through:
+                        dom_calls[n] = tg
+        ctx.check("verified-flag", "assignment/is-the-key-test", bool(false_edges), "verified = self.pub_key.is_some(), branched on before the result is built",
+                  "verified = pub_key.is_some() is never branched on", ctx.loc(pfn))
+        for n in ("sig:DELE", "sig:SREP"):
+            ctx.check("verified-flag", "true-dominated-by/" + n, n in dom_calls,
+                      "every path on which `verified` is true passes a call that always enforces %s (%s)" % (n, dom_calls.get(n)),
+                      "`verified` can be true on a path without an enforced %s verification" % n, ctx.loc(pfn))
+        ctx.ok("verified-flag", "true-only-with-key", "`verified` is pub_key.is_some() itself", ctx.loc(pfn))
+    else:
+      ctx.check("verified-flag", "assignment/constant-true-sites", bool(true_blocks) and not srcs,
               "verified is set from constants; true at %s" % ",".join(pfn.loc(b) for b in true_blocks),
               "cannot identify where `verified` becomes true (%s)" % (srcs or "no constant true"), ctx.loc(pfn))
     for b in true_blocks:
